@@ -158,6 +158,17 @@ def gen_spd(rng, d):
     A = [[sum(W[i][k] * W[j][k] for k in range(d)) / 16.0 for j in range(d)] for i in range(d)]
     for i in range(d):
         A[i][i] += 0.75 + 0.5 * i
+    # round 2: ENFORCE the eigenvalue separation (no extra random draws: all other cases of a seed stay the same).
+    # At exactly repeated eigenvalues (e.g. [[1.3125, 0], [0, 1.3125]], thorough seed 2) jax's derivative of `eigh` --
+    # hence of the library's logm-based transformation -- is NaN; see design.d/C12.md "round 2", observation.
+    if d > 1:
+        import numpy as np
+        for _ in range(8):
+            ev = np.linalg.eigvalsh(np.array(A))
+            if np.min(np.diff(ev)) >= 0.125:
+                break
+            for i in range(d):
+                A[i][i] += 0.25 * (i + 1) * (i % 2 * 2 - 1 if d > 2 else i)
     return [A[i][j] for i in range(d) for j in range(d)]
 
 
@@ -197,6 +208,100 @@ def gen_latent(rng, nterms, want_freeze):
             wrap = "arr" if r < 0.4 else ("vdict" if r < 0.8 else "dict")
         sizes = [rng.choice([2, 3, 4])] if wrap == "arr" else [rng.choice([1, 2]), rng.choice([1, 2])]
     return dict(wrap=wrap, sizes=sizes)
+
+
+# ---------------------------------------------------------------------------------------------------
+# round 2: COMPLEX latent spaces and complex-valued forward models  y = h(S(C u) + b)
+#   u = all latent leaves concatenated (complex as soon as one leaf is), C a complex linear stage, S a gather onto one
+#   complex "slot" per primal element, h per primal leaf: holomorphic for complex leaves, real-valued for real leaves
+# ---------------------------------------------------------------------------------------------------
+CTYPES = ["iscal", "cscal", "cdiag", "fft", "cdense"]
+HOLO = ["id", "cexp", "csq", "csin", "conj"]
+
+
+def cplx_tree(tree):
+    """force every leaf of a data tree to be complex"""
+    for l in tree["leaves"]:
+        l["cplx"] = True
+    return tree
+
+
+def gen_clatent(rng, nterms, want_freeze):
+    """latent tree with at least one COMPLEX leaf"""
+    if want_freeze:
+        wrap = "vdict" if (nterms > 1 or rng.random() < 0.6) else "dict"
+        sizes = [rng.choice([1, 2]), rng.choice([1, 2])] + ([1] if rng.random() < 0.3 else [])
+    else:
+        r = rng.random()
+        if nterms > 1:
+            wrap = "vdict" if r < 0.6 else "arr"
+        else:
+            wrap = "arr" if r < 0.45 else ("vdict" if r < 0.8 else "dict")
+        sizes = [rng.choice([1, 2, 3, 4])] if wrap == "arr" else [rng.choice([1, 2]), rng.choice([1, 2])]
+    cp = [rng.random() < 0.7 for _ in sizes]
+    cp[rng.randrange(len(sizes))] = True
+    return dict(wrap=wrap, sizes=sizes, cplx=cp)
+
+
+def lat_real_sizes(lat):
+    cp = lat.get("cplx") or [False] * len(lat["sizes"])
+    return [n * (2 if c else 1) for n, c in zip(lat["sizes"], cp)]
+
+
+def cact_for(kind, leaf, leaf_index, n_first):
+    if leaf.get("cplx"):
+        return HOLO
+    if kind == "poisson":
+        return ["abs2p1", "expre"]
+    if kind in ("vcgauss", "vcstudt") and leaf_index >= n_first:
+        return ["abs2p1", "expre"]
+    if kind == "ndvc" and leaf_index >= n_first:
+        return ["spd"]
+    return ["re", "im", "re"]
+
+
+def _nz(rng, lo, hi, den=8):
+    while True:
+        v = dy(rng, lo, hi, den)
+        if v != 0:
+            return v
+
+
+def gen_cmodel(rng, term, lat, primal_leaves, n_first, ctype=None, holo=None):
+    nl = sum(lat["sizes"])
+    slots = sum(nelem(l["shape"]) for l in primal_leaves)
+    ctype = ctype or rng.choice(CTYPES)
+    m = dict(ctype=ctype)
+    if ctype == "iscal":
+        m["g"] = [0.0, _nz(rng, -1.5, 1.5)]
+    elif ctype == "cscal":
+        m["g"] = [_nz(rng, -1.5, 1.5), _nz(rng, -1.5, 1.5)]
+    elif ctype == "cdiag":
+        m["c"] = [[dy(rng, -1.5, 1.5, 8), _nz(rng, -1.5, 1.5)] for _ in range(nl)]
+    elif ctype == "fft":
+        m["norm"] = rng.choice(["backward", "ortho", "forward"])
+        m["inverse"] = rng.random() < 0.4
+    elif ctype == "cdense":
+        m["C"] = [[[rng.randint(-8, 8) / 8.0, rng.randint(-8, 8) / 8.0] if rng.random() < 0.8 else [0.0, 0.0]
+                   for _ in range(nl)] for _ in range(slots)]
+    if ctype != "cdense":
+        base = list(range(nl))
+        rng.shuffle(base)
+        m["sel"] = [base[i] if i < nl else rng.randrange(nl) for i in range(slots)]
+    m["b"] = [[dy(rng, -0.5, 0.5), dy(rng, -0.5, 0.5)] for _ in range(slots)]
+    m["acts"] = [(holo if (holo and l.get("cplx")) else rng.choice(cact_for(term["kind"], l, i, n_first)))
+                 for i, l in enumerate(primal_leaves)]
+    if rng.random() < 0.3:
+        m["lazy"] = True
+    return m
+
+
+def gen_herm(rng, n):
+    """Hermitian positive definite n x n complex matrix H = I + (W W^H)/16 with dyadic W: [[re, im], ...] rows"""
+    W = [[complex(rng.randint(-3, 3), rng.randint(-3, 3)) for _ in range(n)] for _ in range(n)]
+    H = [[sum(W[i][k] * W[j][k].conjugate() for k in range(n)) / 16.0 + (1.0 + 0.25 * i if i == j else 0.0)
+          for j in range(n)] for i in range(n)]
+    return [[[H[i][j].real, H[i][j].imag] for j in range(n)] for i in range(n)]
 
 
 # ---------------------------------------------------------------------------------------------------
